@@ -34,6 +34,8 @@ type c8Step struct {
 type c8Case struct {
 	Mod   modspec.Mod `json:"mod"`
 	Steps []c8Step    `json:"steps"`
+	// Big: every package directory starts with a big.dat of this many bytes (0: none); editbig changes one byte near its end
+	Big int `json:"big,omitempty"`
 }
 
 var c8Dirs = []struct{ dir, name string }{{"", "root"}, {"a", "a"}, {"a/sub", "sub"}, {"b", "beta"}, {"c", "c"}}
@@ -68,10 +70,17 @@ func genC08(t *rapid.T) c8Case {
 	if rapid.IntRange(0, 3).Draw(t, "oldsum") == 0 {
 		c.Mod.Extra = append(c.Mod.Extra, modspec.File{Name: "gengo.sum", Data: c.Mod.Path + " h1:old=\n"})
 	}
+	if rapid.Bool().Draw(t, "hasbig") {
+		c.Big = rapid.SampledFrom([]int{4096, 65536, 65537, 70000, 131072, 200000}).Draw(t, "bigsize")
+	}
 	n := rapid.IntRange(3, 14).Draw(t, "nsteps")
 	for i := 0; i < n; i++ {
 		var s c8Step
-		switch rapid.IntRange(0, 19).Draw(t, "stepkind") {
+		switch rapid.IntRange(0, 22).Draw(t, "stepkind") {
+		case 20, 21:
+			s.Op = "editbig"
+		case 22:
+			s.Op = "editkeep"
 		case 0, 1, 2, 3, 4, 5:
 			s.Op = "run"
 		case 6:
@@ -87,7 +96,7 @@ func genC08(t *rapid.T) c8Case {
 		case 12:
 			s.Op = rapid.SampledFrom([]string{"addgo", "delgo"}).Draw(t, "gofile")
 		case 13:
-			s.Op = rapid.SampledFrom([]string{"addtxt", "edittxt", "deltxt"}).Draw(t, "txt")
+			s.Op = rapid.SampledFrom([]string{"addtxt", "edittxt", "deltxt", "addbig", "editbig", "editbig", "editkeep"}).Draw(t, "txt")
 		case 14:
 			s.Op = "addnested"
 		case 15:
@@ -251,6 +260,9 @@ func oracleC08(c c8Case) error {
 	w := &c8World{c: &c, dir: dir}
 	for i := range c.Mod.Pkgs {
 		w.pkgs = append(w.pkgs, &c.Mod.Pkgs[i])
+		if c.Big > 0 {
+			_ = os.WriteFile(filepath.Join(dir, c.Mod.Pkgs[i].Dir, "big.dat"), bytes.Repeat([]byte("0123456789abcdef"), c.Big/16+1)[:c.Big], 0o644)
+		}
 	}
 	sumPath := filepath.Join(dir, "gengo.sum")
 	gen := &script.Script{Name: "g", Mode: "fixed", Default: script.Action{Render: []script.Piece{{Kind: "block", Text: "\nvar _$G_$T = 0\n"}}}}
@@ -403,6 +415,28 @@ func oracleC08(c c8Case) error {
 			}
 		case "deltxt":
 			_ = os.Remove(filepath.Join(pd, fmt.Sprintf("notes%d.txt", st.Arg%3)))
+		case "addbig":
+			// a file around and beyond common buffer sizes
+			size := []int{4096, 65536, 65537, 70000, 131072, 200000}[st.Arg%6]
+			_ = os.WriteFile(filepath.Join(pd, "big.dat"), bytes.Repeat([]byte{'a' + byte(si%26)}, size), 0o644)
+		case "editbig":
+			// one byte near the end of the big file changes, its size stays
+			fn := filepath.Join(pd, "big.dat")
+			if b, err := os.ReadFile(fn); err == nil && len(b) > 0 {
+				b[len(b)-1-st.Arg%min(len(b), 100)] ^= 1
+				_ = os.WriteFile(fn, b, 0o644)
+			}
+		case "editkeep":
+			// an in-place edit that keeps size and modification time (restore from backup, rsync -t, cp -p)
+			fn := filepath.Join(pd, "types.go")
+			if fi, err := os.Stat(fn); err == nil {
+				b, _ := os.ReadFile(fn)
+				if i := bytes.LastIndexByte(b, 'e'); i >= 0 && bytes.Contains(b, []byte("// edit at step")) {
+					b[i] = 'E'
+					_ = os.WriteFile(fn, b, 0o644)
+					_ = os.Chtimes(fn, fi.ModTime(), fi.ModTime())
+				}
+			}
 		case "addnested":
 			_ = os.MkdirAll(filepath.Join(pd, "data", "deep"), 0o755)
 			_ = os.WriteFile(filepath.Join(pd, "data", "deep", fmt.Sprintf("f%d.json", st.Arg%2)), []byte(fmt.Sprintf("{\"step\":%d}\n", si)), 0o644)
